@@ -151,6 +151,62 @@ def units(tier):
     return us
 
 
+def c_literal_value(text):
+    """value a conforming LP64 C compiler gives the expression `<text>` when it initialises a 64-bit signed variable: the
+    literal gets the first type of C11 6.4.4.1's list that can represent it (decimal: int, long; octal / hex: int, unsigned
+    int, long, unsigned long), a leading '-' is unary minus IN THAT TYPE (wraps for the unsigned ones), then conversion"""
+    neg = text.startswith("-")
+    lit = text[1:] if neg else text
+    if lit.lower().startswith("0x"):
+        v, dec = int(lit[2:], 16), False
+    elif len(lit) > 1 and lit[0] == "0":
+        v, dec = int(lit[1:], 8), False
+    else:
+        v, dec = int(lit), True
+    types = [(32, True), (64, True)] if dec else [(32, True), (32, False), (64, True), (64, False)]
+    for bits, signed in types:
+        hi = (1 << (bits - 1)) - 1 if signed else (1 << bits) - 1
+        if v <= hi:
+            break
+    else:
+        raise ValueError("literal too large for any type")
+    if neg:
+        v = -v if signed else (-v) % (1 << bits)
+    v %= 1 << 64
+    return v - (1 << 64) if v >= 1 << 63 else v
+
+
+def _int_literal_check(ExprNodes):
+    """BOUNDED stand-in for IntNode.value_as_c_integer_string (a text -> text function): every spelling of a grid of
+    magnitudes around the C type boundaries, both signs, all four bases: the C value of the emitted text (LP64 literal typing
+    model above) must be the Python value"""
+    from Cython.Utils import str_to_number
+    mags = sorted({m + d for m in (0, 1, 7, 8, 255, 2 ** 15, 2 ** 16, 2 ** 31, 2 ** 32, 0xA0000000, 0xFFFFFFFF, 2 ** 62, 2 ** 63 - 2)
+                   for d in (-1, 0, 1) if m + d >= 0})
+    bad, n = None, 0
+    for m in mags:
+        for spell in ("%d" % m, "0x%x" % m, "0X%X" % m, "0o%o" % m, "0b%s" % bin(m)[2:]):
+            for sign in ("", "-"):
+                text = sign + spell
+                node = ExprNodes.IntNode(("<dv>", 1, 0), value=text)
+                try:
+                    ctext = node.value_as_c_integer_string()
+                    got = c_literal_value(ctext)
+                except Exception as ex:
+                    ctext, got = "?", repr(ex)
+                want = str_to_number(text)
+                n += 1
+                if -2 ** 63 <= want < 2 ** 63 and got != want and bad is None:
+                    bad = (text, ctext, got, want)
+    out = [{"kind": "bounded-check", "name": "IntNode.value_as_c_integer_string: C's value of the emitted literal text == Python's value of the literal",
+            "level": "bounded", "bound": "%d spellings (4 bases x 2 signs) of %d magnitudes around the 32/64-bit boundaries, LP64 literal typing" % (n, len(mags)),
+            "violations": 0 if bad is None else 1}]
+    if bad is not None:
+        out.append({"kind": "bounded-violation", "name": "value_as_c_integer_string",
+                    "text": "the int literal %s is emitted as the C text %s, which a C compiler evaluates to %s (Python: %s)" % bad})
+    return out
+
+
 def side_checks(prop, tier, seed, kf_entries):
     """BOUNDED stand-in (labelled bounded, not counted as proved) for ExprNodes.make_dedup_key, the pooling key of tuple /
     frozenset / slice constants: the key is Python-value equality of nested tuples, which the front end cannot express
@@ -210,7 +266,8 @@ def side_checks(prop, tier, seed, kf_entries):
             bad = (byk[k], s)
             break
         byk.setdefault(k, s)
-    out = [{"kind": "bounded-check", "name": "ExprNodes.make_dedup_key: equal keys => indistinguishable constants", "level": "bounded",
+    out = _int_literal_check(ExprNodes)
+    out += [{"kind": "bounded-check", "name": "ExprNodes.make_dedup_key: equal keys => indistinguishable constants", "level": "bounded",
             "bound": "%d item sequences of length <= 2 over %d atoms (ints, bools, floats incl. +-0.0, None, str, one level of tuples)" % (n, len(atoms)),
             "violations": 0 if bad is None else 1}]
     if bad is not None:
